@@ -329,14 +329,18 @@ pub async fn run_pair() {
     let credit = if plain_allowed { credit } else { 200 };
     let mut uid = 40_000u64;
     let plan = plan_messages(n, &mut uid);
+    // max-message-size in the client's attach: the sending link cuts larger messages into several
+    // transfers of its own (link-level split); settlement is per delivery all the same
+    let mms = pick(&[None, None, Some(100u64), Some(700)]);
     sim::set_config(format!(
-        "variant=pair {} snd-mode={} rcv-second={} msgs={} credit={} strategy={} mfs={}/{} {}",
+        "variant=pair {} snd-mode={} rcv-second={} msgs={} credit={} strategy={} mms={:?} mfs={}/{} {}",
         if client_sends { "C>L" } else { "L>C" },
         smode,
         rcv_second,
         n,
         credit,
         strategy,
+        mms,
         ccfg.max_frame_size,
         lcfg.max_frame_size,
         nd
@@ -390,12 +394,13 @@ pub async fn run_pair() {
             "attach sender",
             sim::in_group(
                 1,
-                Sender::builder()
-                    .name("l")
-                    .target("q")
-                    .sender_settle_mode(snd_mode(smode))
-                    .receiver_settle_mode(rcv)
-                    .attach(&mut csess),
+                {
+                    let b = Sender::builder().name("l").target("q").sender_settle_mode(snd_mode(smode)).receiver_settle_mode(rcv);
+                    match mms {
+                        Some(m) => b.max_message_size(m).attach(&mut csess),
+                        None => b.attach(&mut csess),
+                    }
+                },
             ),
         )
         .await;
@@ -412,13 +417,18 @@ pub async fn run_pair() {
             "attach receiver",
             sim::in_group(
                 1,
-                Receiver::builder()
-                    .name("l")
-                    .source("q")
-                    .sender_settle_mode(snd_mode(smode))
-                    .receiver_settle_mode(rcv)
-                    .credit_mode(CreditMode::Auto(credit))
-                    .attach(&mut csess),
+                {
+                    let b = Receiver::builder()
+                        .name("l")
+                        .source("q")
+                        .sender_settle_mode(snd_mode(smode))
+                        .receiver_settle_mode(rcv)
+                        .credit_mode(CreditMode::Auto(credit));
+                    match mms {
+                        Some(m) => b.max_message_size(m).attach(&mut csess),
+                        None => b.attach(&mut csess),
+                    }
+                },
             ),
         )
         .await;
